@@ -404,7 +404,7 @@ def h_callback(ctx, d, n, I):
     ctx.claim('default_info_carries_nothing_over', all(bool(ctx.all_eq(a, b)) for a, b in zip(Ya, Yb)))
 
 
-def h_func(ctx, m, n, sym_points=False, fixed_cores=False, y_last=None, n_max=None, thr_pow=None):
+def h_func(ctx, m, n, sym_points=False, fixed_cores=False, y_last=None, n_max=None, thr_pow=None, outside=False):
     """Functional version (als_func), d = 2, rank 1, Chebyshev basis of size n:
     every core update is the exact minimiser of the regularised objective over
     the retained degrees (spy on als_func._optimize_core), shape and ranks are
@@ -417,6 +417,10 @@ def h_func(ctx, m, n, sym_points=False, fixed_cores=False, y_last=None, n_max=No
             ctx.assume(ctx.le(v, 1))
     else:
         pts = [[-0.5, 0.25], [0.75, -0.125], [0.125, 0.5]][:m]
+        if outside:
+            # training points outside the box [-1, 1]: the basis is evaluated at the clipped point,
+            # as everywhere else in the library (func_get)
+            pts = [[1.25, 0.25], [0.75, -1.5], [0.125, 0.5]][:m]
         X = np.array([[ctx.const(v) for v in row] for row in pts], dtype=object if is_sym(ctx) else float)
     y = vec(ctx, 'y', m)
     if y_last is not None:
@@ -506,7 +510,8 @@ def h_func(ctx, m, n, sym_points=False, fixed_cores=False, y_last=None, n_max=No
     for s_ in range(n1):
         g = Y[1][0, s_, 0] * lamb
         for j in range(m):
-            T0, T1 = cheb(X[j, 0], n0), cheb(X[j, 1], n1)
+            clip = (lambda v: v) if sym_points else (lambda v: ctx.const(max(-1., min(1., float(pts[j][v])))))
+            T0, T1 = (cheb(X[j, 0], n0), cheb(X[j, 1], n1)) if sym_points else (cheb(clip(0), n0), cheb(clip(1), n1))
             L = sum((Y[0][0, t, 0] * T0[t] for t in range(n0)), 0)
             pred = L * sum((Y[1][0, t, 0] * T1[t] for t in range(n1)), 0)
             g = g + (pred - y[j]) * L * T1[s_]
@@ -564,6 +569,8 @@ def instances(tier):
         out.append({'func': 'h_func', 'params': {'m': 2, 'n': 2, 'fixed_cores': True, 'y_last': yl},
                     'opts': {'generic_divisors': True}})
     out.append({'func': 'h_func', 'params': {'m': 2, 'n': 2, 'fixed_cores': True, 'y_last': 1, 'n_max': 2},
+                'opts': {'generic_divisors': True}})
+    out.append({'func': 'h_func', 'params': {'m': 2, 'n': 2, 'fixed_cores': True, 'y_last': 1, 'outside': True},
                 'opts': {'generic_divisors': True}})
     # a coarse truncation threshold: degrees are dropped for ordinary data
     out.append({'func': 'h_func', 'params': {'m': 2, 'n': 2, 'fixed_cores': True, 'y_last': 1, 'thr_pow': 0.5},
